@@ -101,33 +101,40 @@ package queue
 //@ # the queue is the bag hbag(pq) of pending items with hsize(pq) == len(pq.items).
 //@ ghost hbag(Ref) (Array Ref Int)
 //@ ghost hsize(Ref) Int
-//@ pred pqinv(pq) = pq != nil && as(pq, "*PriorityQueue").metrics != nil && len(as(pq, "*PriorityQueue").items) == hsize(pq) && hsize(pq) >= 0
+//@ pred pqinv(pq) = pq != nil && as(pq, "*berty.tech/weshnet/v2/internal/queue.PriorityQueue").metrics != nil && len(as(pq, "*berty.tech/weshnet/v2/internal/queue.PriorityQueue").items) == hsize(pq) && hsize(pq) >= 0
 //@     && (forall y Ref {hbag(pq)[y]} :: hbag(pq)[y] >= 0)
 
+//@ # (the abstract bag of a heap initialised over no items is empty)
 //@ extern container/heap.Init(h)
-//@   ensures true
+//@   modifies hbag(h), hsize(h)
+//@   ensures len(as(h, "*berty.tech/weshnet/v2/internal/queue.PriorityQueue").items) == 0 ==> hsize(h) == 0 && (forall y Ref {hbag(h)[y]} :: hbag(h)[y] == 0)
 //@ extern container/heap.Push(h, x)
 //@   requires pqinv(h)
-//@   requires [C15.prio.heap-under-lock] locked(addr(as(h, "*PriorityQueue").muMessages))
-//@   modifies hbag(h), hsize(h), as(h, "*PriorityQueue").items
+//@   requires [C15.prio.heap-under-lock] locked(addr(as(h, "*berty.tech/weshnet/v2/internal/queue.PriorityQueue").muMessages))
+//@   modifies hbag(h), hsize(h), as(h, "*berty.tech/weshnet/v2/internal/queue.PriorityQueue").items
 //@   ensures hsize(h) == old(hsize(h)) + 1 && hbag(h) == store(old(hbag(h)), x, old(hbag(h))[x] + 1) && pqinv(h)
 //@ extern container/heap.Pop(h) (x)
 //@   requires pqinv(h) && hsize(h) > 0
-//@   requires [C15.prio.heap-under-lock] locked(addr(as(h, "*PriorityQueue").muMessages))
-//@   modifies hbag(h), hsize(h), as(h, "*PriorityQueue").items
+//@   requires [C15.prio.heap-under-lock] locked(addr(as(h, "*berty.tech/weshnet/v2/internal/queue.PriorityQueue").muMessages))
+//@   modifies hbag(h), hsize(h), as(h, "*berty.tech/weshnet/v2/internal/queue.PriorityQueue").items
 //@   ensures old(hbag(h))[x] > 0 && (forall y Ref {old(hbag(h))[y]} :: old(hbag(h))[y] > 0 ==> ctr(x) <= ctr(y))
 //@   ensures hsize(h) == old(hsize(h)) - 1 && hbag(h) == store(old(hbag(h)), x, old(hbag(h))[x] - 1) && pqinv(h)
 
 //@ func NewPriorityQueue
-//@   for C15
+//@   for C15, C08
 //@   requires tracer != nil
 //@   ensures [C15.prio.new] fresh(result) && len(result.items) == 0 && result.metrics == tracer && unlocked(addr(result.muMessages))
+//@   ensures [C15.prio.new.empty] pqinv(result) && hsize(result) == 0
 
+//@ # padds(): how many items have been added to priority queues (any of them)
+//@ ghost padds() Int
 //@ func (*PriorityQueue[T]).Add
-//@   for C15
+//@   for C15, C08
 //@   requires pqinv(pq) && unlocked(addr(pq.muMessages))
-//@   modifies hbag(pq), hsize(pq), pq.items, lockstate(addr(pq.muMessages))
+//@   modifies hbag(pq), hsize(pq), pq.items, lockstate(addr(pq.muMessages)), padds
+//@   ghostset padds() := old(padds()) + 1
 //@   ensures [C15.prio.add] hsize(pq) == old(hsize(pq)) + 1 && hbag(pq) == store(old(hbag(pq)), m, old(hbag(pq))[m] + 1) && pqinv(pq)
+//@   ensures [C15.prio.add.count] padds == old(padds) + 1
 //@   ensures [C15.prio.add.unlock] unlocked(addr(pq.muMessages))
 
 //@ func (*PriorityQueue[T]).Next
@@ -149,20 +156,24 @@ package queue
 //@ # NextAll: cb is called on every pending item, in non-decreasing counter order; on success the queue is empty
 //@ ghost ptrace() (Array Int Ref)
 //@ ghost pcalls() Int
+//@ # pcberrs(): how many callback calls have returned an error
+//@ ghost pcberrs() Int
 //@ extern pqcallback(next) (err)
-//@   modifies ptrace, pcalls
+//@   modifies ptrace, pcalls, pcberrs
 //@   ensures pcalls == old(pcalls) + 1 && ptrace == store(old(ptrace), old(pcalls), next)
+//@   ensures (err != nil ==> pcberrs == old(pcberrs) + 1) && (err == nil ==> pcberrs == old(pcberrs))
 
 //@ func (*PriorityQueue[T]).NextAll
-//@   for C15
+//@   for C15, C08
 //@   calls cb as pqcallback
 //@   requires pqinv(pq) && unlocked(addr(pq.muMessages)) && cb != nil
-//@   modifies hbag(pq), hsize(pq), pq.items, lockstate(addr(pq.muMessages)), ptrace, pcalls
+//@   modifies hbag(pq), hsize(pq), pq.items, lockstate(addr(pq.muMessages)), ptrace, pcalls, pcberrs
+//@   ensures [C15.prio.nextall.stops-on-error-only] (ret0 != nil ==> pcberrs > old(pcberrs)) && (ret0 == nil ==> pcberrs == old(pcberrs))
 //@   ensures [C15.prio.nextall.all] ret0 == nil ==> hsize(pq) == 0 && pcalls == old(pcalls) + old(hsize(pq))
 //@   ensures [C15.prio.nextall.order] forall i {ptrace[i]} :: old(pcalls) <= i && i + 1 < pcalls ==> ctr(ptrace[i]) <= ctr(ptrace[i + 1])
 //@   ensures [C15.prio.nextall.frombag] forall i {ptrace[i]} :: old(pcalls) <= i && i < pcalls ==> old(hbag(pq))[ptrace[i]] > 0
 //@   ensures [C15.prio.nextall.unlock] unlocked(addr(pq.muMessages)) && pqinv(pq)
-//@   loop 0 invariant locked(addr(pq.muMessages)) && pqinv(pq) && old(pcalls) <= pcalls && pcalls + hsize(pq) == old(pcalls) + old(hsize(pq))
+//@   loop 0 invariant locked(addr(pq.muMessages)) && pqinv(pq) && old(pcalls) <= pcalls && pcalls + hsize(pq) == old(pcalls) + old(hsize(pq)) && pcberrs == old(pcberrs)
 //@   loop 0 invariant forall y Ref {hbag(pq)[y]} :: hbag(pq)[y] <= old(hbag(pq))[y]
 //@   loop 0 invariant forall i {ptrace[i]} :: old(pcalls) <= i && i + 1 < pcalls ==> ctr(ptrace[i]) <= ctr(ptrace[i + 1])
 //@   loop 0 invariant forall i {ptrace[i]} :: old(pcalls) <= i && i < pcalls ==> old(hbag(pq))[ptrace[i]] > 0
